@@ -68,15 +68,27 @@ Definition find_matching_key (kid alg : string) (keys : list jwk) : jwk + fmk_er
   end.
 
 (* what the JWKS endpoint answers to one download *)
-Inductive body := BadDoc | Doc (entries : list (option jwk)).
+(* why a 200 body is NOT a key set document (the catalogue of "malformed JWKS download");
+   the machine treats them all alike - the download failed - the case files say which it was *)
+Inductive malformed :=
+| BadEmpty          (* zero bytes *)
+| BadBlank          (* nothing but white space (space, tab, CR, LF) *)
+| BadNotJson        (* text, HTML, unquoted / single-quoted member names, a BOM, ... *)
+| BadTruncated      (* a key set document cut anywhere before its end *)
+| BadTrailing       (* a complete document followed by further bytes *)
+| BadNull           (* the JSON document null (with or without surrounding white space) *)
+| BadScalar         (* top-level string / number / true / false *)
+| BadArray          (* top-level array (of the keys, or empty) *)
+| BadNoKeys         (* an object without a "keys" member: {}, an error object, a lone JWK *)
+| BadKeysNull       (* "keys":null *)
+| BadKeysNotArray   (* "keys": an object / string / number / true *)
+| BadUnreadable.    (* the body cannot be read to its end (connection dies after the header) *)
+Inductive body := BadDoc (why : malformed) | Doc (entries : list (option jwk)).
   (* Doc es: the body is exactly ONE well-formed JSON document, an object whose
      "keys" member is an array; es = its elements, an entry None being a key
      the decoder skips (unknown kty / undecodable key).  Size, other members,
-     duplicate kids do not matter.
-     BadDoc: everything else - not JSON, truncated, a well-formed document
-     followed by further bytes (second document, HTML, stray brackets), top-level
-     array / string / number / null, "keys" missing, null or not an array (a
-     lone JWK, an error object, {}). *)
+     duplicate kids, the Content-Type header do not matter.
+     BadDoc: everything else. *)
 Inductive resp := TransportErr | Http (ok200 : bool) (b : body).
 
 Fixpoint keep (es : list (option jwk)) : list jwk :=
